@@ -140,6 +140,77 @@ pub fn for_each_satisfaction<FP, FF>(
     // library's `impl Satisfier for absolute::LockTime` and `for Sequence`, combined by the
     // tuple satisfier. Only with a non-final sequence: a bare LockTime satisfier cannot know
     // that a final sequence disables nLockTime, which is the caller's business.
+    // flow 5: the library's own map satisfiers (key -> signature, key hash -> (key, signature), with
+    // and without tap leaf hash; BTreeMap and HashMap), holding exactly the signatures the party
+    // can make. Preimages and lock-time answers come from the harness signer (keys switched off)
+    // through the tuple satisfier. There is no map for the taproot key-path signature: tr() cases
+    // take part only when the internal key's owner is not among the signers.
+    for ((lt, seq), km, pm) in builtin_worlds.iter().cloned().take(4) {
+        use miniscript::{ForEachKey, ToPublicKey};
+        use std::collections::{BTreeMap, HashMap};
+        let spend = Spend::simple(bitcoin::ScriptBuf::from_bytes(target.spk.clone()), lt, seq);
+        let assets = make_assets(world, &spend, target, case, km, pm);
+        let mut keys: Vec<Dk> = vec![];
+        desc.for_each_key(|k| {
+            keys.push(k.clone());
+            true
+        });
+        let is_tr = matches!(desc, Descriptor::Tr(_));
+        if is_tr {
+            if let Some(ik) = case.internal {
+                if assets.keys.contains(&ik.id) {
+                    continue;
+                }
+            }
+        }
+        let mut m_key: BTreeMap<Dk, bitcoin::ecdsa::Signature> = BTreeMap::new();
+        let mut m_hash: HashMap<bitcoin::hashes::hash160::Hash, (Dk, bitcoin::ecdsa::Signature)> = HashMap::new();
+        let mut t_key: BTreeMap<(Dk, bitcoin::taproot::TapLeafHash), bitcoin::taproot::Signature> = BTreeMap::new();
+        let mut t_hash: HashMap<(bitcoin::hashes::hash160::Hash, bitcoin::taproot::TapLeafHash), (Dk, bitcoin::taproot::Signature)> = HashMap::new();
+        for k in &keys {
+            if is_tr {
+                let x = k.to_x_only_pubkey();
+                for p in &target.paths {
+                    if let Some(lh) = p.leaf_hash {
+                        if let Some(sig) = assets.schnorr_sig(&x, Some(lh), None) {
+                            t_key.insert((k.clone(), lh), sig);
+                            t_hash.insert((k.to_pubkeyhash(miniscript::SigType::Schnorr), lh), (k.clone(), sig));
+                        }
+                    }
+                }
+            } else if let Some(sig) = assets.ecdsa_sig(&k.to_public_key()) {
+                m_key.insert(k.clone(), sig);
+                m_hash.insert(k.to_pubkeyhash(miniscript::SigType::Ecdsa), (k.clone(), sig));
+            }
+        }
+        for (variant, mall) in [(0, false), (0, true), (1, false), (1, true)] {
+            let mut a2 = Assets::new(world, &spend, assets.ecdsa.clone());
+            a2.pre = assets.pre.clone();
+            let inner = satisfier(&a2, target);
+            let r = guarded(std::panic::AssertUnwindSafe(|| match (is_tr, variant) {
+                (false, 0) => {
+                    let sat = (&m_key, inner);
+                    if mall { desc.get_satisfaction_mall(&sat) } else { desc.get_satisfaction(&sat) }
+                }
+                (false, _) => {
+                    let sat = (&m_hash, inner);
+                    if mall { desc.get_satisfaction_mall(&sat) } else { desc.get_satisfaction(&sat) }
+                }
+                (true, 0) => {
+                    let sat = (&t_key, inner);
+                    if mall { desc.get_satisfaction_mall(&sat) } else { desc.get_satisfaction(&sat) }
+                }
+                (true, _) => {
+                    let sat = (&t_hash, inner);
+                    if mall { desc.get_satisfaction_mall(&sat) } else { desc.get_satisfaction(&sat) }
+                }
+            }));
+            handle(
+                world, rep, case_idx, run, if variant == 0 { "library-map-satisfier(key)" } else { "library-map-satisfier(key-hash)" }, mall, r, &spend, &assets, km, pm, lt, seq,
+                &mut on_produced, &mut on_failed,
+            );
+        }
+    }
     for ((lt, seq), km, pm) in builtin_worlds {
         let spend = Spend::simple(bitcoin::ScriptBuf::from_bytes(target.spk.clone()), lt, seq);
         let assets = make_assets(world, &spend, target, case, km, pm);
